@@ -23,7 +23,7 @@ Record kst := mkK {
   kc : cls;
   kg : graph;                         (* the spec graph so far *)
   k_twp : list edge;                  (* edge keys deleted while they had properties *)
-  k_anydel : bool;                    (* a delete was committed *)
+  k_anydel : bool;                    (* since the last compaction: a live node was deleted, or a relationship key that already reached a segment *)
   k_sunk_n : list (N * N); k_sunk_e : list (edge * N);   (* property keys sunk by a compaction *)
   k_pend_n : list (N * N); k_pend_e : list (edge * N);   (* set since the last compaction *)
   k_rec : bool;                       (* delete-then-recreate of an edge key inside one committed txn, not yet compacted *)
@@ -31,9 +31,10 @@ Record kst := mkK {
   k_labm : bool;                      (* ... and a compaction / checkpoint followed *)
   k_lrem : list (N * N);              (* (node,label) removed so far in the current transaction *)
   k_here_n : list (N * N); k_here_e : list (edge * N);   (* property keys holding a value in the current transaction's memtable *)
-  k_remp : bool                       (* a value still held by an older run was removed (the next compaction sinks it anyway) *)
+  k_remp : bool;                      (* a value still held by an older run was removed (the next compaction sinks it anyway) *)
+  k_seg : list edge                   (* relationship keys that reached a segment *)
 }.
-Definition k0 : kst := mkK (mkCls false false false false false false false false false) g0 [] false [] [] [] [] false false false [] [] [] false.
+Definition k0 : kst := mkK (mkCls false false false false false false false false false) g0 [] false [] [] [] [] false false false [] [] [] false [].
 
 Definition has_eprops (g : graph) (e : edge) : bool := existsb (fun kv => edge_eqb (fst (fst kv)) e) g.(g_ep).
 
@@ -45,43 +46,43 @@ Definition k_op (st : kst * list edge * list edge) (o : wop) : kst * list edge *
   let k' :=
     match o with
     | OTombEdge e =>
-        mkK c g (if has_eprops g e then e :: k.(k_twp) else k.(k_twp)) true
-            k.(k_sunk_n) k.(k_sunk_e) k.(k_pend_n) k.(k_pend_e) k.(k_rec) k.(k_lab) k.(k_labm) k.(k_lrem) k.(k_here_n) k.(k_here_e) k.(k_remp)
+        mkK c g (if has_eprops g e then e :: k.(k_twp) else k.(k_twp)) (k.(k_anydel) || memE e k.(k_seg))
+            k.(k_sunk_n) k.(k_sunk_e) k.(k_pend_n) k.(k_pend_e) k.(k_rec) k.(k_lab) k.(k_labm) k.(k_lrem) k.(k_here_n) k.(k_here_e) k.(k_remp) k.(k_seg)
     | OTombNode n =>
         mkK (mkCls c.(k_eprops)
                    (c.(k_samerun) || existsb (fun e => xorb (e_src e =? n) (e_dst e =? n)) created)
                    c.(k_tomb) c.(k_remove) c.(k_dups) c.(k_recreate) c.(k_labels) c.(k_vector) c.(k_labelorder))
-            g k.(k_twp) true k.(k_sunk_n) k.(k_sunk_e) k.(k_pend_n) k.(k_pend_e) k.(k_rec) k.(k_lab) k.(k_labm) k.(k_lrem) k.(k_here_n) k.(k_here_e) k.(k_remp)
+            g k.(k_twp) (k.(k_anydel) || g_live g n) k.(k_sunk_n) k.(k_sunk_e) k.(k_pend_n) k.(k_pend_e) k.(k_rec) k.(k_lab) k.(k_labm) k.(k_lrem) k.(k_here_n) k.(k_here_e) k.(k_remp) k.(k_seg)
     | OCreateEdge e =>
         let ok := g_live g (e_src e) && g_live g (e_dst e) in
         mkK (mkCls (c.(k_eprops) || (memE e k.(k_twp) && ok)) c.(k_samerun)
                    c.(k_tomb) c.(k_remove) c.(k_dups) c.(k_recreate) c.(k_labels) c.(k_vector) c.(k_labelorder))
             g k.(k_twp) k.(k_anydel) k.(k_sunk_n) k.(k_sunk_e) k.(k_pend_n) k.(k_pend_e)
-            (k.(k_rec) || (ok && memE e tombed)) k.(k_lab) k.(k_labm) k.(k_lrem) k.(k_here_n) k.(k_here_e) k.(k_remp)
+            (k.(k_rec) || (ok && memE e tombed)) k.(k_lab) k.(k_labm) k.(k_lrem) k.(k_here_n) k.(k_here_e) k.(k_remp) k.(k_seg)
     | OSetNP n key _ =>
         mkK c g k.(k_twp) k.(k_anydel) k.(k_sunk_n) k.(k_sunk_e) k.(k_pend_n) k.(k_pend_e)
-            k.(k_rec) k.(k_lab) k.(k_labm) k.(k_lrem) ((n, key) :: k.(k_here_n)) k.(k_here_e) k.(k_remp)
+            k.(k_rec) k.(k_lab) k.(k_labm) k.(k_lrem) ((n, key) :: k.(k_here_n)) k.(k_here_e) k.(k_remp) k.(k_seg)
     | OSetEP e key _ =>
         mkK c g k.(k_twp) k.(k_anydel) k.(k_sunk_n) k.(k_sunk_e) k.(k_pend_n) k.(k_pend_e)
-            k.(k_rec) k.(k_lab) k.(k_labm) k.(k_lrem) k.(k_here_n) ((e, key) :: k.(k_here_e)) k.(k_remp)
+            k.(k_rec) k.(k_lab) k.(k_labm) k.(k_lrem) k.(k_here_n) ((e, key) :: k.(k_here_e)) k.(k_remp) k.(k_seg)
     | ORemNP n key =>
         mkK (mkCls c.(k_eprops) c.(k_samerun) c.(k_tomb) (c.(k_remove) || memK nk_eqb (n, key) k.(k_sunk_n))
                    c.(k_dups) c.(k_recreate) c.(k_labels) c.(k_vector) c.(k_labelorder))
             g k.(k_twp) k.(k_anydel) k.(k_sunk_n) k.(k_sunk_e) k.(k_pend_n) k.(k_pend_e)
             k.(k_rec) k.(k_lab) k.(k_labm) k.(k_lrem) (setrm nk_eqb (n, key) k.(k_here_n)) k.(k_here_e)
-            (k.(k_remp) || memK nk_eqb (n, key) k.(k_pend_n))
+            (k.(k_remp) || memK nk_eqb (n, key) k.(k_pend_n)) k.(k_seg)
     | ORemEP e key =>
         mkK (mkCls c.(k_eprops) c.(k_samerun) c.(k_tomb) (c.(k_remove) || memK ek_eqb (e, key) k.(k_sunk_e))
                    c.(k_dups) c.(k_recreate) c.(k_labels) c.(k_vector) c.(k_labelorder))
             g k.(k_twp) k.(k_anydel) k.(k_sunk_n) k.(k_sunk_e) k.(k_pend_n) k.(k_pend_e)
             k.(k_rec) k.(k_lab) k.(k_labm) k.(k_lrem) k.(k_here_n) (setrm ek_eqb (e, key) k.(k_here_e))
-            (k.(k_remp) || memK ek_eqb (e, key) k.(k_pend_e))
+            (k.(k_remp) || memK ek_eqb (e, key) k.(k_pend_e)) k.(k_seg)
     | OAddLabel n l =>
         mkK (mkCls c.(k_eprops) c.(k_samerun) c.(k_tomb) c.(k_remove) c.(k_dups) c.(k_recreate) c.(k_labels) c.(k_vector)
                    (c.(k_labelorder) || memK nk_eqb (n, l) k.(k_lrem)))
-            g k.(k_twp) k.(k_anydel) k.(k_sunk_n) k.(k_sunk_e) k.(k_pend_n) k.(k_pend_e) k.(k_rec) true k.(k_labm) k.(k_lrem) k.(k_here_n) k.(k_here_e) k.(k_remp)
+            g k.(k_twp) k.(k_anydel) k.(k_sunk_n) k.(k_sunk_e) k.(k_pend_n) k.(k_pend_e) k.(k_rec) true k.(k_labm) k.(k_lrem) k.(k_here_n) k.(k_here_e) k.(k_remp) k.(k_seg)
     | ORemLabel n l =>
-        mkK c g k.(k_twp) k.(k_anydel) k.(k_sunk_n) k.(k_sunk_e) k.(k_pend_n) k.(k_pend_e) k.(k_rec) true k.(k_labm) ((n, l) :: k.(k_lrem)) k.(k_here_n) k.(k_here_e) k.(k_remp)
+        mkK c g k.(k_twp) k.(k_anydel) k.(k_sunk_n) k.(k_sunk_e) k.(k_pend_n) k.(k_pend_e) k.(k_rec) true k.(k_labm) ((n, l) :: k.(k_lrem)) k.(k_here_n) k.(k_here_e) k.(k_remp) k.(k_seg)
     | _ => k
     end in
   let created' :=
@@ -92,10 +93,10 @@ Definition k_op (st : kst * list edge * list edge) (o : wop) : kst * list edge *
     end in
   let tombed' := match o with OTombEdge e => e :: tombed | _ => tombed end in
   (mkK k'.(kc) (g_apply g o) k'.(k_twp) k'.(k_anydel) k'.(k_sunk_n) k'.(k_sunk_e) k'.(k_pend_n) k'.(k_pend_e)
-       k'.(k_rec) k'.(k_lab) k'.(k_labm) k'.(k_lrem) k'.(k_here_n) k'.(k_here_e) k'.(k_remp), created', tombed').
+       k'.(k_rec) k'.(k_lab) k'.(k_labm) k'.(k_lrem) k'.(k_here_n) k'.(k_here_e) k'.(k_remp) k'.(k_seg), created', tombed').
 
 Definition set_cls (k : kst) (c : cls) : kst :=
-  mkK c k.(kg) k.(k_twp) k.(k_anydel) k.(k_sunk_n) k.(k_sunk_e) k.(k_pend_n) k.(k_pend_e) k.(k_rec) k.(k_lab) k.(k_labm) k.(k_lrem) k.(k_here_n) k.(k_here_e) k.(k_remp).
+  mkK c k.(kg) k.(k_twp) k.(k_anydel) k.(k_sunk_n) k.(k_sunk_e) k.(k_pend_n) k.(k_pend_e) k.(k_rec) k.(k_lab) k.(k_labm) k.(k_lrem) k.(k_here_n) k.(k_here_e) k.(k_remp) k.(k_seg).
 
 Definition k_step (k : kst) (h : hop) : kst :=
   let c := k.(kc) in
@@ -107,18 +108,18 @@ Definition k_step (k : kst) (h : hop) : kst :=
   | HTxn ops true =>
       let k1 := fst (fst (fold_left k_op ops
                    (mkK k.(kc) k.(kg) k.(k_twp) k.(k_anydel) k.(k_sunk_n) k.(k_sunk_e) k.(k_pend_n) k.(k_pend_e)
-                        k.(k_rec) k.(k_lab) k.(k_labm) [] [] [] k.(k_remp), [], []))) in
+                        k.(k_rec) k.(k_lab) k.(k_labm) [] [] [] k.(k_remp) k.(k_seg), [], []))) in
       mkK k1.(kc) k1.(kg) k1.(k_twp) k1.(k_anydel) k1.(k_sunk_n) k1.(k_sunk_e)
           (k1.(k_here_n) ++ k1.(k_pend_n)) (k1.(k_here_e) ++ k1.(k_pend_e))
-          k1.(k_rec) k1.(k_lab) k1.(k_labm) [] [] [] k1.(k_remp)
+          k1.(k_rec) k1.(k_lab) k1.(k_labm) [] [] [] k1.(k_remp) k1.(k_seg)
   | HCompact | HCheckpoint =>
       let dn := existsb (fun p => memK nk_eqb p k.(k_sunk_n)) k.(k_pend_n) in
       let de := existsb (fun p => memK ek_eqb p k.(k_sunk_e)) k.(k_pend_e) in
       mkK (mkCls c.(k_eprops) c.(k_samerun) (c.(k_tomb) || k.(k_anydel)) (c.(k_remove) || k.(k_remp))
                  (c.(k_dups) || dn || de) (c.(k_recreate) || k.(k_rec)) c.(k_labels) c.(k_vector) c.(k_labelorder))
-          k.(kg) k.(k_twp) k.(k_anydel)
+          k.(kg) k.(k_twp) false
           (k.(k_pend_n) ++ k.(k_sunk_n)) (k.(k_pend_e) ++ k.(k_sunk_e)) [] []
-          k.(k_rec) k.(k_lab) (k.(k_labm) || k.(k_lab)) k.(k_lrem) k.(k_here_n) k.(k_here_e) k.(k_remp)
+          k.(k_rec) k.(k_lab) (k.(k_labm) || k.(k_lab)) k.(k_lrem) k.(k_here_n) k.(k_here_e) k.(k_remp) (k.(kg).(g_edges) ++ k.(k_seg))
   | HCloseReopen =>
       set_cls k (mkCls c.(k_eprops) c.(k_samerun) c.(k_tomb) c.(k_remove) c.(k_dups) c.(k_recreate) (c.(k_labels) || k.(k_lab)) c.(k_vector) c.(k_labelorder))
   | HDropReopen =>
